@@ -36,6 +36,8 @@ def rules(ctx):
     P, R = ctx.prog, ctx.res
     ctx.rule('R05.9', "squash_key sorts labels with ordering_key on every path (one canonical key per term for every mix of label types)", floor=2)
     canonical_order(ctx, 'R05.9')
+    ctx.rule('R05.10', "the in-place power validates its exponent itself", floor=1)
+    inplace_validation(ctx, 'R05.10')
     from .C14 import no_module_state
     ctx.rule('R05.8', "no function writes module-level state (memo / registry): results independent of earlier calls", floor=1)
     no_module_state(ctx, 'R05.8')
@@ -367,6 +369,33 @@ def canonical_order(ctx, rid):
                      % src(x)[:60])
     if not n:
         raise AnalysisError("canonical_order: no sort found in any squash_key")
+
+
+def inplace_validation(ctx, rid):
+    """The in-place power is an entry point of its own (`a **= k`): it rejects exponents that are not positive integers
+    itself - the non-in-place form only copies and delegates to it."""
+    P, R = ctx.prog, ctx.res
+    fn = P.func('DictArithmetic.__ipow__')
+    ex = fn.params[1]
+    g = cfg_of(fn.node)
+    good = []
+    for n in g.stmts():
+        if not isinstance(n, ast.Raise):
+            continue
+        for t, pol, o in g.edge_dominators(n):
+            if not pol:
+                continue
+            parts = t.values if isinstance(t, ast.BoolOp) and isinstance(t.op, ast.Or) else [t]
+            for pt in parts:
+                atoms = compare_atoms(pt, True)
+                if (ex, '<=', '0') in atoms or (ex, '<', '1') in atoms:
+                    good.append(n)
+    rets = [n for n in g.stmts() if isinstance(n, ast.Return)]
+    ok = bool(good) and bool(rets)
+    ctx.inst(rid, fn, good[0] if good else 'def __ipow__', ok,
+             "__ipow__ raises for exponents <= 0 itself" if ok else
+             "__ipow__ does not reject non-positive exponents itself: `a **= 0` (or a negative / fractional exponent) silently "
+             "returns a unchanged instead of raising, while a ** 0 raises")
 
 
 def imul_rules(ctx, rid):
